@@ -13,6 +13,7 @@ import Martian.Equiv
 import Martian.EquivMeaning
 import Proofs.Equiv
 import Proofs.EquivLockLTS
+import Proofs.EquivLockLTSOld
 import Gen.Facts
 
 namespace Props.C15
@@ -215,23 +216,28 @@ theorem registerFirst_lets_third_writer_in :
 example : lockRun false lockInit [.lock 1, .lock 2, .signal 2, .lock 3, .unlock 1, .lock 2, .signal 2, .lock 3]
     = some { lockFile := true, holders := [3], registered := [3] } := by decide
 
-/-! ## the lock protocol as a transition system (check and write are separate steps)
+/-! ## the lock protocol as a transition system
 
-`Martian.LockLTS`: actors = any number of mrp processes; actions `check p`,
-`write p` (the two halves of `Pipestance.Lock`), `unlock p`, `signal p` (death
-through the handler path), `kill p` (SIGKILL: nothing runs), `rmLock` (an
-operator deletes the file).  No heartbeat and no automatic stale-lock takeover
-exist in the code.  All theorems are over ALL traces / interleavings. -/
+`Martian.LockLTS`: actors = any number of mrp processes; actions `acquire p`
+(the exclusive create of `_lock`: one atomic test-and-set), `register p` (the
+signal handler, registered only once the lock is owned), `unlock p`, `signal p`
+(death through the handler path), `kill p` (SIGKILL: nothing runs), `rmLock`
+(an operator deletes the file).  No heartbeat and no automatic stale-lock
+takeover exist in the code.  All theorems are over ALL traces / interleavings. -/
+
+/-- Regenerated obligation: `Pipestance.Lock` creates `_lock` with
+`os.OpenFile(…, O_CREATE|O_EXCL, …)`, which is what makes `acquire` ONE atomic
+action.  (False on a tree where the lock is written after a separate existence
+check: see `lts_check_then_write_race` for what then goes wrong.) -/
+theorem lock_file_created_exclusively : Gen.c15LockExclusive = true := by decide
 
 open Martian.LockLTS in
-/-- Mutual exclusion for every interleaving in which (1) `Lock()` calls do not
-overlap and (2) the operator removes `_lock` only when nobody owns or acquires
-the pipestance: at most one process believes it owns the pipestance, and while
-one does the lock file exists.
-PARTIAL: the full statement (no assumption (1)) is FALSE for the code as written —
-`Lock()` is check-then-write without O_EXCL — see `lts_check_then_write_race`;
-without (2) see `lts_rmLock_under_live_owner`. -/
-theorem lts_mutual_exclusion_partial (tr : List Act) (s : St)
+/-- Mutual exclusion for EVERY interleaving of attach attempts, unlocks, graceful
+and ungraceful deaths — `Lock()` calls may overlap arbitrarily — provided the
+operator removes `_lock` only when no process owns the pipestance: at most one
+process owns the pipestance, and while one does the lock file exists.
+(Without the operator assumption: `lts_rmLock_under_live_owner`.) -/
+theorem lts_mutual_exclusion (tr : List Act) (s : St)
     (h : run Gen.c15RegisterFirst disciplined init tr = some s) :
     s.holders.length ≤ 1 ∧ (s.holders ≠ [] → s.lockFile = true) := by
   rw [handler_registered_after_check] at h
@@ -243,20 +249,19 @@ theorem lts_mutual_exclusion_partial (tr : List Act) (s : St)
 open Martian.LockLTS in
 /-- An attach that is refused changes nothing at all — in ANY state, reachable or not. -/
 theorem lts_refused_attach_changes_nothing (s : St) (p : Nat) (h : s.lockFile = true) :
-    step Gen.c15RegisterFirst s (.check p) = (s, false) := by
+    step Gen.c15RegisterFirst s (.acquire p) = (s, false) := by
   rw [handler_registered_after_check]
   cases s; simp_all [step]
 
 open Martian.LockLTS in
-/-- …and neither does the later death (graceful or not) of a process that neither
-owns nor is acquiring the pipestance — e.g. an attacher that was refused. -/
+/-- …and neither does the later death (graceful or not) of a process that does
+not own the pipestance — e.g. an attacher that was refused. -/
 theorem lts_death_of_bystander_changes_nothing (tr : List Act) (s : St) (p : Nat)
-    (h : run Gen.c15RegisterFirst disciplined init tr = some s)
-    (hc : p ∉ s.checked) (hh : p ∉ s.holders) :
+    (h : run Gen.c15RegisterFirst disciplined init tr = some s) (hh : p ∉ s.holders) :
     (step Gen.c15RegisterFirst s (.signal p)).1 = s ∧ (step Gen.c15RegisterFirst s (.kill p)).1 = s := by
   rw [handler_registered_after_check] at h ⊢
   have hi := inv_run tr init s inv_init h
-  have hr : p ∉ s.registered := by rw [hi.reg p]; exact fun h => h.elim hc hh
+  have hr : p ∉ s.registered := fun hm => hh (hi.reg p hm)
   have hrc : s.registered.contains p = false := by
     cases hcn : s.registered.contains p
     · rfl
@@ -265,28 +270,40 @@ theorem lts_death_of_bystander_changes_nothing (tr : List Act) (s : St) (p : Nat
   simp_all [step, drop_of_not_mem]
 
 open Martian.LockLTS in
-/-- A lock left behind by a killed owner is never taken over: every attach is refused
-until the file is removed (there is no stale-lock rule in the code). -/
+/-- A lock left behind by a killed owner — or by an owner signalled between its
+`acquire` and its `register` — is never taken over: every attach is refused until
+the file is removed (there is no stale-lock rule in the code). -/
 theorem lts_stale_lock_blocks (s : St) (p q : Nat) (h : s.lockFile = true) :
-    (step Gen.c15RegisterFirst (step Gen.c15RegisterFirst s (.kill p)).1 (.check q)).2 = false := by
+    (step Gen.c15RegisterFirst (step Gen.c15RegisterFirst s (.kill p)).1 (.acquire q)).2 = false := by
   simp [step, h]
 
 open Martian.LockLTS in
-/-- Negative witness (not a hypothetical: this is the code's `exists` … `WriteFile`):
-two overlapping `Lock()` calls both succeed. -/
+/-- The window between the exclusive create and the handler registration is
+safe: an owner signalled there leaves the lock file in place (a stale lock). -/
+theorem lts_signal_before_register_leaves_stale_lock :
+    run false disciplined init [.acquire 1, .signal 1] = some { lockFile := true, holders := [], registered := [] } := by
+  decide
+
+open Martian.LockLTS in
+/-- Negative witness: deleting `_lock` while its owner is alive lets a second owner in. -/
+theorem lts_rmLock_under_live_owner :
+    ∃ s, run false anything init [.acquire 1, .register 1, .rmLock, .acquire 2] = some s ∧ s.holders = [2, 1] := by
+  exact ⟨_, rfl, rfl⟩
+
+open Martian.LockLTSOld in
+/-- REGRESSION DOCUMENTATION — a theorem about the OLD two-step protocol
+(`Martian.LockLTSOld`: `Lock()` = existence check, then `os.WriteFile`), i.e. the
+code before the fix "create the pipestance lock file exclusively": two
+overlapping `Lock()` calls both succeeded.  This is what
+`lock_file_created_exclusively` guards against. -/
 theorem lts_check_then_write_race :
     ∃ s, run false anything init [.check 1, .check 2, .write 1, .write 2] = some s ∧ s.holders = [2, 1] := by
   exact ⟨_, rfl, rfl⟩
 
 open Martian.LockLTS in
-/-- Negative witness: deleting `_lock` while its owner is alive lets a second owner in. -/
-theorem lts_rmLock_under_live_owner :
-    ∃ s, run false anything init [.check 1, .write 1, .rmLock, .check 2, .write 2] = some s ∧ s.holders = [2, 1] := by
-  exact ⟨_, rfl, rfl⟩
-
-open Martian.LockLTS in
 example : run false disciplined init
-    [.check 1, .write 1, .check 2, .signal 2, .check 3, .kill 1, .check 2, .rmLock, .check 2, .write 2, .unlock 2]
-    = some { lockFile := false, checked := [], holders := [], registered := [] } := by decide
+    [.acquire 1, .acquire 2, .register 1, .acquire 2, .signal 2, .acquire 3, .kill 1, .acquire 2, .rmLock,
+     .acquire 2, .acquire 3, .register 2, .unlock 2]
+    = some { lockFile := false, holders := [], registered := [] } := by decide
 
 end Props.C15
